@@ -159,7 +159,7 @@ Alloc(kind, content, heap) ==
 \* numeric index of a validated non-negative integral number (huge -> beyond any length)
 Ix(v) == IF v.f = "q" THEN v.n ELSE Bound + 1
 SetCell(heap, r, content) == [heap EXCEPT ![r].v = content]
-RemoveAt(s, i) == SubSeq(s, 1, i - 1) \o SubSeq(s, i + 1, Len(s))
+DropAt(s, i) == SubSeq(s, 1, i - 1) \o SubSeq(s, i + 1, Len(s))
 
 PairIndex(ps, key) == IF \E i \in 1..Len(ps) : ps[i].key = key
                       THEN CHOOSE i \in 1..Len(ps) : ps[i].key = key ELSE 0
@@ -228,8 +228,8 @@ LStrip(s) == IF s # <<>> /\ IsSpaceCP(Head(s)) THEN LStrip(Tail(s)) ELSE s
 RStrip(s) == IF s # <<>> /\ IsSpaceCP(s[Len(s)]) THEN RStrip(SubSeq(s, 1, Len(s) - 1)) ELSE s
 \* case mapping is specified on ASCII only (DESIGN limit); any other code point makes the result unmodelled
 AsciiOnly(s) == \A i \in 1..Len(s) : s[i] < 128
-Lower(s) == [i \in 1..Len(s) |-> IF s[i] >= 65 /\ s[i] <= 90 THEN s[i] + 32 ELSE s[i]]
-Upper(s) == [i \in 1..Len(s) |-> IF s[i] >= 97 /\ s[i] <= 122 THEN s[i] - 32 ELSE s[i]]
+LowerCase(s) == [i \in 1..Len(s) |-> IF s[i] >= 65 /\ s[i] <= 90 THEN s[i] + 32 ELSE s[i]]
+UpperCase(s) == [i \in 1..Len(s) |-> IF s[i] >= 97 /\ s[i] <= 122 THEN s[i] - 32 ELSE s[i]]
 
 \* percent-encoding (RFC 3986 unreserved + the function's safe set), UTF-8
 UTF8(c) ==
@@ -270,7 +270,7 @@ LibPureOK(name, a, heap, off) ==     \* a = validated arguments
     CASE name = "arrayCopy" -> LET r == Alloc("array", heap[a[1].r].v, heap) IN R(r.v, r.heap)
       [] name = "arrayDelete" ->
             IF Ix(a[2]) >= Len(heap[a[1].r].v) THEN RF(Null, heap)
-            ELSE R(AnyVal, SetCell(heap, a[1].r, RemoveAt(heap[a[1].r].v, Ix(a[2]) + 1)))
+            ELSE R(AnyVal, SetCell(heap, a[1].r, DropAt(heap[a[1].r].v, Ix(a[2]) + 1)))
       [] name = "arrayExtend" -> R(a[1], SetCell(heap, a[1].r, heap[a[1].r].v \o heap[a[2].r].v))
       [] name = "arrayGet" ->
             IF Ix(a[2]) >= Len(heap[a[1].r].v) THEN RF(Null, heap) ELSE R(heap[a[1].r].v[Ix(a[2]) + 1], heap)
@@ -307,7 +307,7 @@ LibPureOK(name, a, heap, off) ==     \* a = validated arguments
       [] name = "objectCopy" -> LET r == Alloc("object", heap[a[1].r].v, heap) IN R(r.v, r.heap)
       [] name = "objectDelete" ->
             LET i == PairIndex(heap[a[1].r].v, a[2].v) IN
-            R(Null, IF i = 0 THEN heap ELSE SetCell(heap, a[1].r, RemoveAt(heap[a[1].r].v, i)))
+            R(Null, IF i = 0 THEN heap ELSE SetCell(heap, a[1].r, DropAt(heap[a[1].r].v, i)))
       [] name = "objectGet" ->
             LET i == PairIndex(heap[a[1].r].v, a[2].v) IN R(IF i = 0 THEN a[3] ELSE heap[a[1].r].v[i].val, heap)
       [] name = "objectHas" -> R(Bool(PairIndex(heap[a[1].r].v, a[2].v) # 0), heap)
@@ -326,8 +326,8 @@ LibPureOK(name, a, heap, off) ==     \* a = validated arguments
             LET ix == IF a[3].t = "null" THEN Len(a[1].v) - 1 ELSE Ix(a[3]) IN
             IF ix >= Len(a[1].v) THEN RF(IntV(-1), heap) ELSE R(IntV(RFind(a[1].v, a[2].v, ix + Len(a[2].v))), heap)
       [] name = "stringLength" -> R(IntV(Len(a[1].v)), heap)
-      [] name = "stringLower" -> IF AsciiOnly(a[1].v) THEN R(Str(Lower(a[1].v)), heap) ELSE SkipR(heap)
-      [] name = "stringUpper" -> IF AsciiOnly(a[1].v) THEN R(Str(Upper(a[1].v)), heap) ELSE SkipR(heap)
+      [] name = "stringLower" -> IF AsciiOnly(a[1].v) THEN R(Str(LowerCase(a[1].v)), heap) ELSE SkipR(heap)
+      [] name = "stringUpper" -> IF AsciiOnly(a[1].v) THEN R(Str(UpperCase(a[1].v)), heap) ELSE SkipR(heap)
       [] name = "stringNew" -> LET t == ToText(a[1], heap, off) IN IF t.ok THEN R(Str(t.s), heap) ELSE SkipR(heap)
       [] name = "stringRepeat" ->
             IF Ix(a[2]) * Len(a[1].v) > 100000 THEN SkipR(heap) ELSE R(Str(RepeatSeq(a[1].v, Ix(a[2]))), heap)
